@@ -132,6 +132,12 @@ func (d *decoder) varint() uint64 {
 		return 0
 	}
 	v, n := binary.Uvarint(d.buf)
+	if n <= 0 {
+		// n == 0: the buffer ends inside the varint, n < 0: the value overflows
+		// 64 bits. Either way the input is truncated or corrupt.
+		d.err = io.ErrUnexpectedEOF
+		return 0
+	}
 	d.buf = d.buf[n:]
 	return v
 }
